@@ -13,7 +13,7 @@
    Model output := implementation output when the acceptor accepts and the payload lists
    it stored agree with the disk. *)
 From Coq Require Import List NArith Bool.
-From FS Require Import Sx Model.Path Model.Stat Model.Tree Model.AccEvents Model.ReceiverAcc Glue.C06G.
+From FS Require Import Sx Model.Path Model.Stat Model.Tree Model.AccEvents Model.SenderAcc Model.ReceiverAcc Glue.C06G.
 Import ListNotations.
 Open Scope N_scope.
 Open Scope bool_scope.
@@ -45,7 +45,7 @@ Fixpoint c_reqs7 (needs : bytes -> bool) (entries : list entry) (i : nat) (reqd 
       N.ltb n (N.of_nat i) && negb (memN n reqd)
       && match nth_error entries (N.to_nat n) with Some en => wanted_entry needs en | None => false end
       && c_reqs7 needs entries i (n :: reqd) r
-    | In (PStat (Some _)) => c_reqs7 needs entries (S i) reqd r
+    | Inp (PStat (Some _)) => c_reqs7 needs entries (S i) reqd r
     | _ => c_reqs7 needs entries i reqd r
     end
   end.
@@ -53,10 +53,10 @@ Fixpoint c_reqs7 (needs : bytes -> bool) (entries : list entry) (i : nat) (reqd 
 Definition requested (tr : list event) : list N :=
   flat_map (fun e => match e with Out (PReq n) => [n] | _ => [] end) tr.
 Definition is_out_req (e : event) : bool := match e with Out (PReq _) => true | _ => false end.
-Definition is_in_endm (e : event) : bool := match e with In (PStat None) => true | _ => false end.
+Definition is_in_endm (e : event) : bool := match e with Inp (PStat None) => true | _ => false end.
 Definition is_in_eof (e : event) : bool := match e with InEof => true | _ => false end.
 Definition has_term (n : N) (tr : list event) : bool :=
-  existsb (fun e => match e with In (PData m []) => N.eqb m n | _ => false end) tr.
+  existsb (fun e => match e with Inp (PData m []) => N.eqb m n | _ => false end) tr.
 
 Fixpoint before {A} (f : A -> bool) (l : list A) : list A :=
   match l with [] => [] | x :: r => if f x then [] else x :: before f r end.
@@ -107,7 +107,7 @@ Definition c_stored (entries : list entry) (disk : list (bytes * bytes)) (tr : l
     end) (requested tr).
 (* no DATA for ids that were never requested (sanity of the reference sender) *)
 Definition c_data_only_requested (tr : list event) : bool :=
-  forallb (fun e => match e with In (PData n _) => memN n (requested tr) | _ => true end) tr.
+  forallb (fun e => match e with Inp (PData n _) => memN n (requested tr) | _ => true end) tr.
 
 (* eof_before_fin_is_error, and the shape of a successful end: FIN out, FIN in, EOF, return *)
 Definition c_eof (ok : bool) (tr : list event) : bool :=
@@ -118,7 +118,7 @@ Definition c_eof (ok : bool) (tr : list event) : bool :=
 
 (* a failed call has a cause in the trace *)
 Definition has_cause7 (tr : list event) : bool :=
-  existsb (fun e => match e with In (PErr _) | Fault => true | _ => false end) tr
+  existsb (fun e => match e with Inp (PErr _) | Fault => true | _ => false end) tr
   || (existsb is_in_eof tr && negb (existsb is_in_fin (before is_in_eof tr))).
 
 Definition clauses7 (needs : bytes -> bool) (entries : list entry) (atfin atend : bool * list (bytes * bytes))
